@@ -9,8 +9,9 @@ def build(ctx):
     ctx.log("translate", out)
     if not ok:
         ctx.diag.append("translator failed: " + out[-300:])
-    C.prove(ctx, ["Props/C10.v"],
-            ["Oblig/C10Obl.v", "Model/WalkFacts.v", "Model/MergeDirTable.v", "Proto/MergeDirFacts.v", "Proto/MergeDirTraceFacts.v"])
+    C.prove(ctx, ["Props/C10.v", "Props/C10Merge.v"],
+            ["Oblig/C10Obl.v", "Model/WalkFacts.v", "Model/MergeDirTable.v", "Proto/MergeDirFacts.v", "Proto/MergeDirTraceFacts.v",
+             "Proto/MergeDirMergeFacts.v", "Oblig/C10MergeObl.v"])
     ok, out = C.build_harness()
     ctx.log("go build", out)
     if not ok:
@@ -20,7 +21,48 @@ def build(ctx):
     ctx.log("ocaml", out[-3000:])
     if not ok:
         ctx.diag.append("extracted model does not build: " + out[-600:])
+    ok, out = C.build_ocaml("c10merge")
+    ctx.log("ocaml c10merge", out[-3000:])
+    if not ok:
+        ctx.diag.append("extracted MergeDir-over-Merge model does not build: " + out[-600:])
     return True
+
+
+def mergecorr(ctx, n, sub="mergecorr", salt=1011, compare=True):
+    """Phase 2: forced-arrival and free-running runs of the real MergeDir against the extracted
+    MergeDir-over-Merge model (exact output structure), plus the direct oracle
+    'result = MergeFilesWith over the files in arrival order'."""
+    d = os.path.join(ctx.rundir, sub)
+    os.makedirs(d, exist_ok=True)
+    rc, out = C.sh([os.path.join(C.BIN, "c10"), "mergecorr", "-out", d, "-n", str(n), "-salt", str(salt),
+                    "-corpus", os.path.join(C.VERIF, "corpus", "C10")], timeout=3000)
+    ctx.log(sub, out[-2000:])
+    if rc != 0:
+        ctx.diag.append("mergecorr crashed rc=%d: %s" % (rc, out[-300:]))
+    before = len(ctx.fails)
+    summ = ctx.read_jsonl(os.path.join(d, "oracle.jsonl"))
+    for f in ctx.fails[before:]:
+        f["input"] = f.get("case")
+    if not compare:
+        return summ
+    drv = os.path.join(C.BUILD, "ocaml", "c10merge", "driver")
+    if rc == 0 and os.path.exists(drv):
+        rc2, out2 = C.sh("%s %s > %s 2> %s" % (drv, os.path.join(d, "cases.txt"), os.path.join(d, "model.txt"), os.path.join(d, "stats.json")), timeout=3000)
+        if rc2 != 0:
+            ctx.diag.append("extracted MergeDir-over-Merge model crashed: " + out2[-300:])
+        ctx.compare("mergedir-over-merge", os.path.join(d, "model.txt"), os.path.join(d, "impl.txt"), os.path.join(d, "cases.txt"))
+        kinds = {}
+        for line in open(os.path.join(d, "cases.txt")):
+            kinds[line[:1]] = kinds.get(line[:1], 0) + 1
+        ctx.cov["mergedir_over_merge_case_kinds"] = {"forced_arrival": kinds.get("M", 0), "free_running_envelope": kinds.get("E", 0)}
+        try:
+            import json
+            ctx.cov["mergedir_over_merge_free_running"] = json.loads(open(os.path.join(d, "stats.json")).read().strip().splitlines()[-1])
+        except Exception:  # noqa
+            pass
+    else:
+        ctx.diag.append("MergeDir-over-Merge correspondence could not run: " + out[-300:])
+    return summ
 
 
 def oracle(ctx, n, sub="oracle", salt=10, race=False):
@@ -46,6 +88,7 @@ def oracle(ctx, n, sub="oracle", salt=10, race=False):
 def search(ctx, factor):
     before = len(ctx.fails)
     oracle(ctx, ctx.scale(1500, 8000) * factor, "search", salt=77)
+    mergecorr(ctx, ctx.scale(400, 2000) * factor, "search-merge", salt=78, compare=False)
     found = ctx.fails[before:]
     del ctx.fails[before:]
     return found
@@ -57,9 +100,11 @@ def run(ctx):
         "Go scheduler, channels, errgroup, context and sync.Once/WaitGroup semantics are model definitions (coq/Proto/MergeDir.v: rendezvous hand-offs, cancel flags, one label per goroutine action)",
         "MergeDirGen analysis of the translator (extension switch of DefaultFileAcceptor; channel sends and their select/Done guards; returns inside walkDir's listing loop)",
         "trace recording of the harness (AcceptFile callback = start, fs.File.Close = read finished; path and file ids; gated in-memory fs.FS)",
+        "forced-arrival argument of harness/cmd/c10/mergecorr.go: a parse worker asks for its next path only after its send on mergableFiles was received, and the merger receives again only after sorted.add returned (read off queueFileForMerging / the merger loop); identity markers of the generated files as in C08",
     ]
     ctx.assumptions += [
-        "files are abstract ids in the protocol theorems; that merging the same multiset of files gives the same entries per origin/destination whatever the arrival order is property C08 (checked here only by the oracle: MergeDir vs MergeFilesWith)",
+        "content theorems (Props/C10Merge.v) are about the Merge model of C08/C09 (valid non-IAT, non-ADV files without ValidateOpts; NewBatch/Batch.Create/File.Create succeed; sorted.add never fails) with the protocol's file ids interpreted by an arbitrary content function",
+        "which file seeds sorted.header when it is not the first to reach the merger (sync.Once in the worker) is modelled and covered by the theorems but cannot be forced on the real code: forced-arrival runs always seed with the first arrival; free-running runs are only checked to lie inside the model's envelope",
         "data-race freedom is observed with the race detector (thorough tier), not proved",
         "directory read errors (fs.ReadDir failing) are not part of the model",
         "strings.ToLower is modelled on ASCII letters only (no other rune lower-cases to a letter of the accepted extensions)",
@@ -85,6 +130,8 @@ def run(ctx):
         ctx.diag.append("correspondence could not run: " + out[-300:])
     summ = oracle(ctx, ctx.scale(4000, 20000))
     ctx.add_summary(summ, "MergeDir vs MergeFiles oracle")
+    summ = mergecorr(ctx, ctx.scale(600, 6000))
+    ctx.add_summary(summ, "forced arrival order: MergeDir vs MergeFilesWith in arrival order, exact structure")
     if ctx.tier == "thorough":
         ok, out = C.build_harness(race=True)
         ctx.log("go build -race", out)
